@@ -162,7 +162,7 @@ def r3(fx):
 
     class CM:
         def __init__(self, v):
-            self.v = v
+            self._cm_value = v
     genv['_VALID_SERIALIZERS'] = table
     genv['gzip'] = GZ()
     save = FuncVal(fx.fn('writers', 'save'), genv, it)
@@ -201,17 +201,29 @@ def r3(fx):
             if e.name != 'ValueError':
                 bad.append((spell, e.name))
     yield ob('unknown output kind / extension is refused with ValueError', not bad, fx.fn('writers', 'save'), got=bad, want=[])
-    # svgz: With statement is not interpreted; check its shape
-    sv = fx.fn('writers', 'save')
-    w = [s for s in ast.walk(sv) if isinstance(s, ast.With)]
-    ww = single(w, 'with-statement of the svgz branch')
-    okz = pat.match(ww.items[0].context_expr, "gzip.open(out, 'wb', compresslevel=kw.pop('compresslevel', 9))") is not None and \
-        pat.match(ww.body[0], 'serializer(matrix, matrix_size, f, **kw)', mode='stmt') is not None and ast.unparse(ww.items[0].optional_vars) == 'f'
-    g = nf.guard_text(nf.guards_of(ww, sv))
-    isz = single([s for s in sv.body if isinstance(s, ast.Assign) and ast.unparse(s.targets[0]) == 'is_svgz'], 'is_svgz')
-    yield ob('svgz = the SVG serialiser writing through gzip.open, only for file names', okz and nf.guard_is(nf.guards_of(ww, sv), 'is_svgz')
-             and nf.same(isz.value, "(ext == 'svgz' and not is_stream)"), ww, got=f'{ast.unparse(ww.items[0].context_expr)} if {ast.unparse(isz.value)}',
-             want="gzip.open(out, 'wb', compresslevel=kw.pop('compresslevel', 9)) if not is_stream and ext == 'svgz'")
+    # svgz: the SVG serialiser writes into what gzip.open(<file name>, 'wb', compresslevel) yields; file names only
+    probs = []
+    for name, opts, level in (('name.svgz', {}, 9), ('dir.v1/NAME.SVGZ', {'compresslevel': 5}, 5), ('x.SvgZ', {'scale': 3, 'compresslevel': 1}, 1)):
+        calls.clear()
+        try:
+            save('<m>', (21, 21), name, **opts)
+        except PyRaise as e:
+            probs.append(f'{name}: raises {e.name}')
+            continue
+        rest = {k: v for k, v in opts.items() if k != 'compresslevel'}
+        want = [('gzip.open', name, 'wb', level), ('svg', ('gz', name), rest)]
+        if calls != want:
+            probs.append(f'{name} {opts}: {calls}')
+    st = Stream()
+    calls.clear()
+    try:
+        save('<m>', (21, 21), st, kind='svgz', scale=2)
+        if calls != [('gzip.open', st, 'wb', 9), ('svg', ('gz', st), {'scale': 2})]:
+            probs.append(f'kind=svgz on a stream: {calls}')
+    except PyRaise as e:
+        probs.append(f'kind=svgz on a stream raises {e.name}')
+    yield ob('svgz (file name in any case, or kind=) = the SVG serialiser writing through gzip.open', not probs, fx.fn('writers', 'save'), got=probs[:2] or 'as required',
+             want="gzip.open(out, 'wb', compresslevel=<option or 9>) then the SVG serialiser with the remaining options")
     # is_mode_supported / get_eci_assignment_number
     ims = make_callable(fx.forest, 'encoder', 'is_mode_supported', it)
     try:
